@@ -289,7 +289,9 @@ Fixpoint walk_client (st : k17) (script : list revent) (faults : list (option Z)
   | o :: ops', (r, ws, cl, consumed) :: obs' =>
       let q := N.of_nat (S nsent) in
       let faulted := fault_at faults nsent in
-      let c08 := if faulted then true else chk_c08_call o q script r in
+      (* C08 speaks about requests the kernel received: a call any of whose sends failed (DeleteRules has several) is left out *)
+      let faulted_any := existsb (fun i => fault_at faults (nsent + i)) (seq 0 (length ws)) in
+      let c08 := if faulted || faulted_any then true else chk_c08_call o q script r in
       let c16 := if faulted then (match o with OSet _ _ _ => chk_c16_call o q script r ws | _ => true end) else chk_c16_call o q script r ws in
       let '(st', c17) := chk_c17_call st o q faulted script r ws cl consumed in
       let '(a, b, c) := walk_client st' (skipn (N.to_nat consumed) script) faults (nsent + length ws) ops' obs' in
